@@ -1406,3 +1406,33 @@ impl Drop for Arena {
 
 #[cfg(test)]
 mod tests;
+
+#[cfg(feature = "verif-hooks")]
+impl Arena {
+  /// Bounded walk of the free list (verification only).
+  #[doc(hidden)]
+  pub fn __verif_freelist(&self, max_nodes: usize) -> crate::verif_hooks::FreelistSnapshot {
+    let sentinel = *self.header().sentinel.as_inner_ref();
+    let mut nodes = std::vec::Vec::new();
+    let (_, mut next) = decode_segment_node(sentinel);
+    let mut complete = true;
+    while next != SENTINEL_SEGMENT_NODE_OFFSET {
+      if nodes.len() >= max_nodes
+        || next as usize % 8 != 0
+        || next as usize + SEGMENT_NODE_SIZE > self.cap as usize
+      {
+        complete = false;
+        break;
+      }
+      let word = *self.get_segment_node(next).as_inner_ref();
+      let (size, nn) = decode_segment_node(word);
+      nodes.push((next, size, nn));
+      next = nn;
+    }
+    crate::verif_hooks::FreelistSnapshot {
+      sentinel,
+      nodes,
+      complete,
+    }
+  }
+}
